@@ -248,17 +248,18 @@ theorem rangeFrom_spec (cfg : Cfg K V) (hc : TotalCmp cfg.cmp) {s : SL K V} (h :
   unfold SL.rangeFrom
   by_cases hz : (s.len == 0) = true
   · have := h.len_zero_iff.mp hz
-    by_cases hf : cfg.fixed
+    by_cases hf : (cfg.fixed && cfg.lazy) = true
     · simp only [hf, hz, Bool.and_self, if_true, this]
       cases end_ <;> simp [ge, bounded, stopAfter]
-    · -- the unrepaired guard is skipped; the loops give the same (empty) answer
-      simp only [hf, Bool.false_and, Bool.false_eq_true, if_false, h1]
+    · -- no guard (`SkipListWithCmp`, or the unrepaired code): the loops give the same (empty) answer
+      have hf' : (cfg.fixed && cfg.lazy) = false := by simpa using hf
+      simp only [hf', Bool.false_and, Bool.false_eq_true, if_false, h1]
       rw [startLoop_spec hc start ls none h2 (fun l _ c hcn => by cases hcn), h3, this]
       simp only [List.not_mem_nil, decide_false, Bool.false_eq_true, if_false, h5]
       rw [hr, this]
       simp [pred, lo, lastOr, after, rangeChain, Sink.new, Sink.out, ge]
       cases end_ <;> simp [bounded, stopAfter]
-  · have hz' : ¬ ((cfg.fixed && (s.len == 0)) = true) := by simp [hz]
+  · have hz' : ¬ ((cfg.fixed && cfg.lazy && (s.len == 0)) = true) := by simp [hz]
     rw [if_neg hz']
     simp only [h1]
     rw [startLoop_spec hc start ls none h2 (fun l _ c hcn => by cases hcn), h3]
